@@ -1247,6 +1247,11 @@ func pooledHelperRule(p *Prog, r *Report, only string) {
 // mustStoredFields: names of the fields of struct type typ (by short name) that fn assigns on every path from
 // its entry to a return; allocating a fresh object of the type counts as assigning all of its fields ("*").
 func mustStoredFields(fn *ssa.Function, typ string) map[string]bool {
+	return mustStoredFieldsAt(fn, typ, nil)
+}
+
+// mustStoredFieldsAt: as mustStoredFields, but only the returns accepted by keep count (nil: all).
+func mustStoredFieldsAt(fn *ssa.Function, typ string, keep func(*ssa.Return) bool) map[string]bool {
 	n := len(fn.Blocks)
 	out := make([]map[string]bool, n)
 	gen := func(b *ssa.BasicBlock, in map[string]bool) map[string]bool {
@@ -1326,7 +1331,8 @@ func mustStoredFields(fn *ssa.Function, typ string) map[string]bool {
 	res := map[string]bool{}
 	first := true
 	for _, b := range fn.Blocks {
-		if _, ok := b.Instrs[len(b.Instrs)-1].(*ssa.Return); !ok || out[b.Index] == nil {
+		rt, ok := b.Instrs[len(b.Instrs)-1].(*ssa.Return)
+		if !ok || out[b.Index] == nil || (keep != nil && !keep(rt)) {
 			continue
 		}
 		if out[b.Index]["*"] {
@@ -1822,4 +1828,100 @@ func isZeroTimeValue(v ssa.Value) bool {
 		}
 	}
 	return false
+}
+
+// perIPWrapperRule (C12.R-wrap): the per-IP accounting wrappers (struct types that carry a *perIPConnCounter) are
+// recycled through the counter's pools. Close gives the count back for the address stored in the wrapper, so a
+// recycled wrapper must be told the address of the connection it now wraps: every field of such a type is assigned
+// on every path of the acquiring function that returns an object of the type (a fresh object counts as assigned),
+// unless a reason says the field cannot differ between the objects of one pool.
+func perIPWrapperRule(p *Prog, r *Report) {
+	exempt := map[string]string{
+		"perIPConnCounter": "the pool is a field of the counter this field points to: all objects of one pool share the value",
+	}
+	var typs []*types.Named
+	root := p.byPath[rootPkg].Types
+	for _, nm := range root.Scope().Names() {
+		tn, ok := root.Scope().Lookup(nm).(*types.TypeName)
+		if !ok {
+			continue
+		}
+		named, ok := tn.Type().(*types.Named)
+		if !ok {
+			continue
+		}
+		st, ok := named.Underlying().(*types.Struct)
+		if !ok {
+			continue
+		}
+		for i := 0; i < st.NumFields(); i++ {
+			if strings.HasSuffix(st.Field(i).Type().String(), "*"+rootPkg+".perIPConnCounter") {
+				typs = append(typs, named)
+			}
+		}
+	}
+	n := 0
+	for _, named := range typs {
+		k := named.Obj().Name()
+		// acquirers: functions that assert a pool's Get result to *T
+		for _, fn := range p.funcsIn("") {
+			asserts := false
+			for _, b := range fn.Blocks {
+				for _, in := range b.Instrs {
+					if ta, ok := in.(*ssa.TypeAssert); ok && shortType(strings.TrimPrefix(ta.AssertedType.String(), "*")) == k {
+						var fromGet func(v ssa.Value, d int) bool
+						fromGet = func(v ssa.Value, d int) bool {
+							if d > 4 {
+								return false
+							}
+							switch w := v.(type) {
+							case *ssa.Call:
+								return w.Call.StaticCallee() != nil && w.Call.StaticCallee().Name() == "Get"
+							case *ssa.Phi:
+								for _, e := range w.Edges {
+									if fromGet(e, d+1) {
+										return true
+									}
+								}
+							}
+							return false
+						}
+						if fromGet(ta.X, 0) {
+							asserts = true
+						}
+					}
+				}
+			}
+			if !asserts {
+				continue
+			}
+			written := mustStoredFieldsAt(fn, k, func(rt *ssa.Return) bool {
+				for _, rv := range rt.Results {
+					v := rv
+					if mi, ok := v.(*ssa.MakeInterface); ok {
+						v = mi.X
+					}
+					if shortType(strings.TrimPrefix(v.Type().String(), "*")) == k {
+						return true
+					}
+				}
+				return false
+			})
+			st := named.Underlying().(*types.Struct)
+			for i := 0; i < st.NumFields(); i++ {
+				f := st.Field(i)
+				if strings.HasPrefix(f.Type().String(), "sync.") {
+					continue
+				}
+				if why := exempt[f.Name()]; why != "" {
+					r.Note("R-wrap exempt %s.%s: %s", k, f.Name(), why)
+					continue
+				}
+				n++
+				r.Check("R-wrap", fmt.Sprintf("%s: a recycled %s has its field %s assigned before it is handed out", funcName(fn), k, f.Name()), written[f.Name()] || written["*"], p.Pos(fn.Pos()),
+					"the wrapper taken from the pool keeps this field from the connection it wrapped before: Close then gives the count back for the wrong address - the real client's count never returns to zero (it is refused from then on) and the stale address is under-counted")
+			}
+		}
+	}
+	r.Floor("R-wrap", "fields of pooled per-IP wrappers", n, 4)
 }
